@@ -1,8 +1,9 @@
 """C19 - step protocol: release, forcing, output, move, IBM; once per step in that order."""
+from contracts import closing as CL
 from contracts import model as M
 from contracts import output as O
 
-UNITS = [M.ModelUpdate("sparse"), M.ModelUpdate("dense"), M.ModelUpdate(None), M.ModelFinish({}), M.ModelFinish(dict(grid=True, release=True, tracker=True)), M.ModelFinish(dict(forcing=False, ibm=False, output=False)), O.OutputUpdate(), M.ModelInit(True), M.ModelInit(False)] + list(M.LOADER_UNITS)
+UNITS = [M.ModelUpdate("sparse"), M.ModelUpdate("dense"), M.ModelUpdate(None), M.ModelFinish({}), M.ModelFinish(dict(grid=True, release=True, tracker=True)), M.ModelFinish(dict(forcing=False, ibm=False, output=False)), O.OutputUpdate(), M.ModelInit(True), M.ModelInit(False)] + list(M.LOADER_UNITS) + list(CL.CLOSE_UNITS)
 LEMMAS = [M.MainLoopStructure()]
 NATIVE = [dict(name="step protocol observed on the real Model with recording plug-ins (module path vs name, cold/warm start)", harness="protocol_bounded", kind="bounded")]
 LEVEL = "proof"
